@@ -1,8 +1,215 @@
-(** * Properties_C04 — theorems only (proofs are in Store/Proofs*.v) *)
-From Coq Require Import List NArith Bool.
-From V Require Import Common.Bytes Store.Fs Store.Ops.
-Import ListNotations.
+(** * Properties_C04 — every listed model is complete; operations on one model never damage another.
+    Theorems only; the proofs are in Store/Proofs*.v.  The model (Store/Fs.v, Store/Ops.v) describes /repo/server
+    with the repairs fixes/C04-*.patch applied; the [*_legacy_refuted] theorems show, on the model of the unrepaired
+    code, the defects those patches remove.
 
-Theorem C04_get_existing_nil : forall n, get_existing [] n = n.
+    Reading guide.  [op_guards size_of empty_store os]: every operation of the history [os] meets its decidable guard
+    in the store it starts in — [create_check] for creates (the create does not delete a blob that a layer of its
+    own list in the making uses; see C04_create_check_from), [served_ok] for pulls (honest, self-consistent registry),
+    nothing for blob uploads, copies, deletes and start-up prunes.  [size_of] (content -> size) is arbitrary. *)
+From Coq Require Import List NArith Bool Permutation.
+From V Require Import Common.Bytes Store.Fs Store.Ops Store.ProofsAlist Store.ProofsNames Store.ProofsInv Store.ProofsOps Store.ProofsTop Store.ProofsMore.
+Import ListNotations.
+Open Scope N_scope.
+
+(** After any history of create / copy / pull / delete / blob upload / start-up prune operations from the empty
+    store, every manifest that decodes (= every model /api/tags lists) has each of its layers and its config in the
+    blob store: digest spelled canonically, blob file present, content hashing to the digest, recorded size right. *)
+Theorem C04_listed_complete : forall size_of os,
+  op_guards size_of empty_store os ->
+  let s := exec_all size_of empty_store os in
+  forall n m l, mget n s = Some (Readable m) -> In l (all_layers m) ->
+    dcolon (ldg l) = true /\ bget (dhex (ldg l)) s = Some (dhex (ldg l)) /\ lsz l = size_of (dhex (ldg l)).
+Proof.
+  intros size_of os Hg s n m l. apply inv_listed_complete. apply exec_all_inv; [apply Inv_empty | exact Hg].
+Qed.
+Print Assumptions C04_listed_complete.
+
+(** An operation only touches the manifest of the (canonicalised) name it is asked to work on — a name equal to the
+    requested one up to letter case — and leaves every other manifest, and every blob another readable manifest
+    uses, exactly as it was. *)
+Theorem C04_frame : forall size_of os o,
+  op_guards size_of empty_store os ->
+  let s := exec_all size_of empty_store os in
+  op_guard size_of s o = true ->
+  (forall t nm, op_target s o = Some t -> op_name o = Some nm -> name_eqfold t nm = true) /\
+  forall n, op_target s o <> Some n ->
+    mget n (exec size_of s o) = mget n s /\
+    forall m l, mget n s = Some (Readable m) -> In l (all_layers m) ->
+      bget (dhex (ldg l)) (exec size_of s o) = bget (dhex (ldg l)) s.
+Proof.
+  intros size_of os o Hg s Hgo. assert (HI : Inv size_of s) by (apply exec_all_inv; [apply Inv_empty | exact Hg]).
+  split; [intros t nm; apply target_eqfold|].
+  intros n Hn. destruct (exec_frame size_of s o n HI Hgo Hn) as [H1 H2]. split; [exact H1|].
+  intros m l Hm. apply H2. apply mget_listed, Hm.
+Qed.
+Print Assumptions C04_frame.
+
+(** Start-up pruning with every manifest readable leaves exactly the blobs some manifest uses (and no debris),
+    and does not touch the manifests. *)
+Theorem C04_prune_exact : forall size_of os,
+  op_guards size_of empty_store os ->
+  let s := exec_all size_of empty_store os in
+  has_unreadable s = false ->
+  let s' := exec size_of s OStartup in
+  debris s' = [] /\ mans s' = mans s /\ forall h, (exists c, bget h s' = Some c) <-> referenced_hex s' h = true.
+Proof.
+  intros size_of os Hg s Hu. apply (startup_exact size_of s); [apply exec_all_inv; [apply Inv_empty | exact Hg] | exact Hu].
+Qed.
+Print Assumptions C04_prune_exact.
+
+(** No two listed models differ only by letter case. *)
+Theorem C04_case_unique : forall size_of os,
+  op_guards size_of empty_store os ->
+  let s := exec_all size_of empty_store os in
+  forall a b ma mb, mget a s = Some (Readable ma) -> mget b s = Some (Readable mb) -> name_eqfold a b = true -> a = b.
+Proof.
+  intros size_of os Hg s a b ma mb. apply (inv_case_unique size_of). apply exec_all_inv; [apply Inv_empty | exact Hg].
+Qed.
+Print Assumptions C04_case_unique.
+
+(** getExistingName (repaired): the answer does not depend on the order in which Go's map iteration presents the
+    stored names, equals the request up to case, and is a stored name whenever one matches up to case. *)
+Theorem C04_get_existing_order_free : forall ex ex' n,
+  Permutation ex ex' ->
+  get_existing ex n = get_existing ex' n /\ name_eqfold (get_existing ex n) n = true /\
+  (forall e, In e ex -> name_eqfold e n = true -> In (get_existing ex n) ex).
+Proof.
+  intros ex ex' n Hp. split; [apply get_existing_perm, Hp|]. split; [apply get_existing_eqfold|].
+  intros e. apply get_existing_stored.
+Qed.
+Print Assumptions C04_get_existing_order_free.
+
+(** The guard of creates holds for every create FROM a model: none of its removeLayer calls deletes anything. *)
+Theorem C04_create_check_from : forall size_of os q src,
+  op_guards size_of empty_store os -> cr_base q = BFrom src ->
+  create_check size_of (exec_all size_of empty_store os) q = true.
+Proof.
+  intros size_of os q src Hg Hb. apply (create_check_from size_of _ q src); [apply exec_all_inv; [apply Inv_empty | exact Hg] | exact Hb].
+Qed.
+Print Assumptions C04_create_check_from.
+
+(** ** Non-vacuity: a history with shared layers, a re-create in place, a case variant, a copy, a delete and a prune *)
+Definition ex_sz (c : N) : N := c + 10.
+Definition nm (m t : str) : name := MkName s_default_host s_default_ns m t.
+Definition ex_a := nm [97] [116].     (* a:t *)
+Definition ex_A := nm [65] [116].     (* A:t *)
+Definition ex_b := nm [98] [116].     (* b:t *)
+Definition ex_c := nm [99] [116].     (* c:t *)
+Definition ex_ops : list op :=
+  [ OBlob (MkDigest true 1) 1
+  ; OCreate (MkCreate ex_a (BFiles (MkDigest true 1) [(0, None)] false [(3, 20); (5, 21)]) None (Some 2) [] None None 30)
+  ; OCreate (MkCreate ex_b (BFrom ex_a) (Some (true, 4)) (Some 3) [7] (Some 5) None 31)
+  ; OCreate (MkCreate ex_A (BFrom ex_a) None (Some 3) [] None None 32)       (* lands on a:t *)
+  ; OCopy ex_b ex_c
+  ; ODelete ex_b
+  ; OPull ex_b (Some (MkServed (MkManifest (MkLayer 8 (MkDigest true 40) 50) [MkLayer 0 (MkDigest true 1) 11; MkLayer 4 (MkDigest true 41) 51])
+                               [Some 1; Some 41; Some 40]))
+  ; OStartup ].
+
+Example C04_example_guards : op_guards ex_sz empty_store ex_ops.
+Proof. vm_compute. repeat split. Qed.
+
+Example C04_example_nontrivial :
+  let s := exec_all ex_sz empty_store ex_ops in
+  length (mans s) = 3%nat /\ length (blobs s) = 11%nat /\ mget ex_A s = None /\ has_unreadable s = false.
+Proof. vm_compute. repeat split. Qed.
+
+(** ** The defects of the unrepaired code, on its model *)
+
+(** getExistingName, unrepaired: on a store that holds two spellings of a name part the answer depends on the map
+    order and an exactly stored name can be rewritten to a name that is not stored.  (Through the API alone two
+    spellings of a part only arise through the pull defect below: the unrepaired function rewrites every part of a new
+    name to the spelling some stored name already uses.) *)
+Theorem C04_get_existing_legacy_refuted :
+  get_existing_legacy [w_e1; w_e2] w_n <> get_existing_legacy [w_e2; w_e1] w_n /\
+  (In w_e1 [w_e1; w_e2] /\ get_existing_legacy [w_e1; w_e2] w_e1 = w_n /\ ~ In w_n [w_e1; w_e2]).
+Proof. split; [apply legacy_order_dependent | apply legacy_misses_stored_name]. Qed.
+Print Assumptions C04_get_existing_legacy_refuted.
+
+(** digest spelling, unrepaired: a create that names its GGUF blob as sha256-<hex> stores that spelling; deleting
+    another model that uses the same blob under sha256:<hex> — or a restart — removes the blob of a listed model. *)
+Definition legacy_spelling_ops (last : op) : list op :=
+  [ OBlob (MkDigest true 1) 1
+  ; OCreate (MkCreate ex_a (BFiles (MkDigest true 1) [(0, None)] false []) None None [] None None 30)
+  ; OCreate (MkCreate ex_c (BFiles (MkDigest false 1) [(0, None)] false []) None None [] None None 31)
+  ; last ].
+
+Theorem C04_listed_complete_legacy_refuted :
+  (let s := fold_left (exec_legacy ex_sz) (legacy_spelling_ops (ODelete ex_a)) empty_store in
+   exists m, mget ex_c s = Some (Readable m) /\ exists l, In l (all_layers m) /\ bget (dhex (ldg l)) s = None) /\
+  (let s := fold_left (exec_legacy ex_sz) (legacy_spelling_ops (ODelete ex_a) ++ [OStartup]) empty_store in
+   exists m, mget ex_c s = Some (Readable m) /\ exists l, In l (all_layers m) /\ bget (dhex (ldg l)) s = None) /\
+  (let s := fold_left (exec_legacy ex_sz)
+              [OBlob (MkDigest true 1) 1; OCreate (MkCreate ex_c (BFiles (MkDigest false 1) [(0, None)] false []) None None [] None None 31); OStartup] empty_store in
+   exists m, mget ex_c s = Some (Readable m) /\ exists l, In l (all_layers m) /\ bget (dhex (ldg l)) s = None).
+Proof.
+  repeat split; vm_compute; eexists; (split; [reflexivity|]); eexists; (split; [left; reflexivity | reflexivity]).
+Qed.
+Print Assumptions C04_listed_complete_legacy_refuted.
+
+(** the same histories on the repaired model end well *)
+Example C04_spelling_repaired :
+  let s := exec_all ex_sz empty_store (legacy_spelling_ops (ODelete ex_a)) in
+  exists m, mget ex_c s = Some (Readable m) /\ forallb (fun l => match bget (dhex (ldg l)) s with Some _ => true | None => false end) (all_layers m) = true.
+Proof. vm_compute. eexists. split; reflexivity. Qed.
+
+(** create FROM a model that does not exist, unrepaired: the error is reported and a manifest with no base layer is
+    written all the same; repaired: nothing is written. *)
+Theorem C04_from_missing_legacy_refuted :
+  let q := MkCreate ex_a (BFrom ex_b) None (Some 2) [] None None 30 in
+  (exists m, mget ex_a (exec_legacy ex_sz empty_store (OCreate q)) = Some (Readable m) /\ snd (op_run_legacy ex_sz empty_store (OCreate q)) = RErr) /\
+  exec ex_sz empty_store (OCreate q) = empty_store.
+Proof. split; [vm_compute; eexists; split; reflexivity | reflexivity]. Qed.
+Print Assumptions C04_from_missing_legacy_refuted.
+
+(** pull, unrepaired: the canonical name goes through its short form, so a default host stored in another letter
+    case gets a second manifest in lower case. *)
+Definition up_host : name := MkName [82;101;103;105;115;116;114;121;46;79;108;108;97;109;97;46;65;73] s_default_ns [109] [116].  (* Registry.Ollama.AI/library/m:t *)
+Definition legacy_pull_ops : list op :=
+  [ OBlob (MkDigest true 1) 1
+  ; OCreate (MkCreate up_host (BFiles (MkDigest true 1) [(0, None)] false []) None None [] None None 30)
+  ; OPull (nm [109] [116]) (Some (MkServed (MkManifest (MkLayer 8 (MkDigest true 40) 50) [MkLayer 0 (MkDigest true 1) 11]) [Some 1; Some 40])) ].
+
+Theorem C04_pull_case_legacy_refuted :
+  (let s := fold_left (exec_legacy ex_sz) legacy_pull_ops empty_store in
+   exists ma mb, mget up_host s = Some (Readable ma) /\ mget (nm [109] [116]) s = Some (Readable mb) /\ name_eqfold up_host (nm [109] [116]) = true) /\
+  (let s := exec_all ex_sz empty_store legacy_pull_ops in mget (nm [109] [116]) s = None /\ length (mans s) = 1%nat).
+Proof. split; vm_compute; [eexists; eexists; repeat split | split; reflexivity]. Qed.
+Print Assumptions C04_pull_case_legacy_refuted.
+
+(** ... and once two spellings of a part are stored, the unrepaired getExistingName takes every part from the last
+    stored name (in map order) that matches it: deleting the exactly stored name [Registry.Ollama.AI/library/m:t]
+    removes the manifest of the *other* model (for the map order modelled here; the other order removes the right one). *)
+Theorem C04_frame_legacy_refuted :
+  let s0 := fold_left (exec_legacy ex_sz) legacy_pull_ops empty_store in
+  let s := exec_legacy ex_sz s0 (ODelete up_host) in
+  mget up_host s = mget up_host s0 /\ mget up_host s0 <> None /\ mget (nm [109] [116]) s0 <> None /\ mget (nm [109] [116]) s = None.
+Proof. vm_compute. repeat split; discriminate. Qed.
+Print Assumptions C04_frame_legacy_refuted.
+
+(** ** Known finding (not repaired): a listed model without a model layer cannot be shown *)
+Definition C04_listed_showable_full : Prop := forall size_of os,
+  op_guards size_of empty_store os ->
+  forall n m, mget n (exec_all size_of empty_store os) = Some (Readable m) -> has_model_b m = true.
+
+Theorem C04_listed_showable_refuted : ~ C04_listed_showable_full.
+Proof.
+  intros H.
+  specialize (H ex_sz [OBlob (MkDigest true 1) 1; OCreate (MkCreate ex_a (BFiles (MkDigest true 1) [(MT_ADAPTER, None)] false []) None None [] None None 30)]).
+  assert (Hg : op_guards ex_sz empty_store [OBlob (MkDigest true 1) 1; OCreate (MkCreate ex_a (BFiles (MkDigest true 1) [(MT_ADAPTER, None)] false []) None None [] None None 30)])
+    by (vm_compute; repeat split).
+  specialize (H Hg ex_a). vm_compute in H. specialize (H _ eq_refl). discriminate.
+Qed.
+Print Assumptions C04_listed_showable_refuted.
+
+(** ... and holds for histories whose creates from files bring a model-type GGUF and whose pulls serve a manifest
+    with a model layer ([ops_have_model], decidable). *)
+Theorem C04_listed_showable_partial : forall size_of os,
+  op_guards size_of empty_store os -> ops_have_model os = true ->
+  forall n m, mget n (exec_all size_of empty_store os) = Some (Readable m) -> has_model_b m = true.
+Proof. intros size_of os. apply (showable_partial size_of). Qed.
+Print Assumptions C04_listed_showable_partial.
+
+Example C04_showable_partial_nonvacuous : ops_have_model ex_ops = true.
 Proof. reflexivity. Qed.
-Print Assumptions C04_get_existing_nil.
